@@ -101,14 +101,14 @@ CHECKS = {
     "C02": dict(
         level="model_checking",
         clauses=GEN_CLAUSES_SPEC,
-        phases=dict(quick=[dict(profile="core2"), dict(profile="imm3", opts=dict(pool=True)), dict(profile="wins3"), dict(profile="tall2")],
-                    thorough=[dict(profile="core2"), dict(profile="core3"), dict(profile="imm4", opts=dict(pool=True)), dict(profile="wins4"), dict(profile="tall2"), dict(profile="reroot3")]),
+        phases=dict(quick=[dict(kind="proofs", canary=False), dict(profile="core2"), dict(profile="imm3", opts=dict(pool=True)), dict(profile="wins3"), dict(profile="tall2")],
+                    thorough=[dict(kind="proofs", canary=False), dict(profile="core2"), dict(profile="core3"), dict(profile="imm4", opts=dict(pool=True)), dict(profile="wins4"), dict(profile="tall2"), dict(profile="reroot3")]),
     ),
     "C03": dict(
         level="model_checking",
         clauses={"rows", "order", "names", "accept", "export-error", "cross-rows"},
-        phases=dict(quick=[dict(kind="laws"), dict(profile="fn1", opts=dict(pool=True))],
-                    thorough=[dict(kind="laws"), dict(profile="fn1", opts=dict(pool=True)), dict(profile="fn2", opts=dict(pool=True))]),
+        phases=dict(quick=[dict(kind="laws"), dict(kind="proofs"), dict(profile="fn1", opts=dict(pool=True))],
+                    thorough=[dict(kind="laws"), dict(kind="proofs"), dict(profile="fn1", opts=dict(pool=True)), dict(profile="fn2", opts=dict(pool=True))]),
     ),
     "C17": dict(
         level="model_checking",
